@@ -5,3 +5,9 @@ check("C01", "harness/c01_types.cxx", workers=(8, 16), wall=(20, 600),
       title="types are unified")
 check("C04", "harness/c04_names.cxx", workers=(8, 16), wall=(20, 600),
       title="names and atoms are unified; single Identifier per spelling")
+check("C11", "harness/c11_qualified.cxx", workers=(8, 16), wall=(10, 120),
+      title="qualified types are in normal form")
+check("C10", "harness/c10_specifiers.cxx", workers=(8, 16), wall=(15, 180),
+      title="specifier and qualifier sets are a Boolean algebra with exact decomposition")
+check("C13", "harness/c13_constants.cxx", workers=(2, 4), wall=(5, 30),
+      title="Lexicon constants are distinct, correctly spelled, self-describing, process-wide")
